@@ -119,6 +119,8 @@ BUILTIN_ARGS = {
 
 # introductory programs with the usual beginner mistakes and with type annotations: all must be analysed to completion
 INTRO_PROGRAMS = {
+    'stub:function-body-ellipsis': "def todo():\n    ...\ntodo()\n", 'stub:class-body-ellipsis': "class Shape:\n    ...\nprint(Shape())\n",
+    'stub:if-body-ellipsis': "x = 1\nif x:\n    ...\nelse:\n    print(x)\n", 'stub:ellipsis-value': "later = ...\nprint(later)\n",
     'mistake:call-a-number': "width = 3\narea = 2(width + 4)\nprint(area)\n",
     'mistake:call-a-list-literal': "first = [1, 2, 3](0)\nprint(first)\n",
     'mistake:call-a-method-result': "parts = 'a,b'.split(',')(1)\nprint(parts)\n",
